@@ -10,7 +10,7 @@
    preimage of a completed part, N2 'failed' WITHOUT warning only when no part is pending or complete,
    N3 an error reply means the command is not running. Results: POk p (Ok), PNone (Err, final),
    PErr (Err because a list/wait RPC failed: known-finding class kf_read_error, KF-B). *)
-From Tramp Require Import Model.Base Model.Node Model.Provider Model.ProviderSys Proofs.ProviderProofs Proofs.ProviderTyped.
+From Tramp Require Import Model.Base Model.Node Model.Provider Model.ProviderSys Proofs.ProviderProofs Proofs.ProviderTyped Proofs.ProviderLive.
 
 Theorem C16_pay : forall (parts0 : list pstat) (b : list N) (a : option N) (f d rt : N) (evs : list pevent),
   hist_ok (pay_init parts0 (QPay b a f d rt)) evs = true ->
@@ -49,6 +49,35 @@ Proof.
   pose proof (C16_pay parts0 b a f d rt evs Hok r Hr) as H.
   destruct r; [exact H|exact H|].
   exfalso. exact (pay_no_read_error_no_PErr parts0 b a f d rt evs Hok Hcl Hr).
+Qed.
+
+(* the wait_payment the wrapper falls back to (pay answered pending / failed with a warning / with an error) RETURNS on every
+   schedule: once the wrapper is in it, a contract-respecting continuation in which every step changes the state has at most
+   [ppot] steps before the wrapper has returned, and until then there is always a step to take (an RPC to process, a reply to
+   deliver, a pending part to resolve) *)
+Theorem C16_fallback_wait_returns : forall (parts0 : list pstat) (b : list N) (a : option N) (f d rt : N) (evs0 evs : list pevent),
+  hist_ok (pay_init parts0 (QPay b a f d rt)) evs0 = true ->
+  let s := prun (pay_init parts0 (QPay b a f d rt)) evs0 in
+  waiting s <> None ->
+  hist_ok s evs = true ->
+  (forall k e, nth_error evs k = Some e -> peffective (prun s (firstn k evs)) e) ->
+  waiting (prun s evs) <> None ->
+  (length evs <= ppot s)%nat.
+Proof.
+  intros parts0 b a f d rt evs0 evs Hok0 s Hw Hok Heff Hw'.
+  apply wait_effective_runs_are_bounded; auto.
+  - apply PInv_run; [apply PInv_pay_init|exact Hok0].
+  - intros k Hk. apply Hw. unfold waiting. rewrite Hk. reflexivity.
+Qed.
+
+Theorem C16_fallback_wait_never_at_rest : forall (parts0 : list pstat) (b : list N) (a : option N) (f d rt : N) (evs0 : list pevent) w,
+  hist_ok (pay_init parts0 (QPay b a f d rt)) evs0 = true ->
+  let s := prun (pay_init parts0 (QPay b a f d rt)) evs0 in
+  waiting s = Some w -> exists ev, pwf s ev = true /\ peffective s ev.
+Proof.
+  intros parts0 b a f d rt evs0 w Hok0 s Hw. apply (waiting_is_never_at_rest s w); [|exact Hw|].
+  - apply PInv_run; [apply PInv_pay_init|exact Hok0].
+  - apply NE_run. exact I.
 Qed.
 
 (* the contract boundary: without N2 the statement is false of the code (it returns Err without looking) *)
